@@ -6,8 +6,8 @@ from ..ctx import Ctx
 from ..oread import read_smiles
 from ..symstr import make_slots
 
-TOK3 = ["C", "N", "O", "Cl", "=C", "#N", "(", ")", "1", "2", "=1", "%10", "c", "n", "[nH]", "[O-]", "."]
-TOK3Q = ["C", "N", "=C", "#N", "(", ")", "1", "=1", "%10", "c", "n", "[nH]", "[O-]", "."]
+TOK3 = ["C", "N", "O", "Cl", "=C", "#N", "(", ")", "1", "2", "=1", "%10", "c", "n", "[nH]", "[O-]", ".", ":", "-"]
+TOK3Q = ["C", "N", "=C", "#N", "(", ")", "1", "=1", "%10", "c", "n", "[nH]", "[O-]", ".", ":"]
 R = ["1", "2", "%10"]
 # spelling templates: one skeleton each, slots = alternative spellings of the same or closely related molecules
 TEMPLATES3 = [
@@ -23,6 +23,8 @@ TEMPLATES3 = [
     ["C", ["(F)1", "1(F)"], "CC", ["C1", "C=1", "=C1"]],
     # aromatic spellings
     [["c1ccccc1", "c1ccc(F)cc1", "c1cc[nH]c1", "c1ccncc1", "c1ccoc1", "C1=CC=CC=C1", "c1ccc2ccccc2c1", "c1ccc2[nH]ccc2c1"], ["", "C", ".C"]],
+    # aromatic bonds spelled out (':' between atoms, before a ring label, on both / one end of a closure; upper-case atoms)
+    [["c", "n", "C"], ["1", ":1"], [":", ""], "c", [":", ""], "c", [":", ""], ["c", "n"], [":", ""], "c", [":", ""], ["c", "C"], [":1", "1"], ["", "C", ":c:c"]],
     # multi-fragment and charged
     [["[Na+]", "[NH4+]", "C"], ".", ["[Cl-]", "[O-]C", "OC(=O)[O-]"], ["", ".O"]],
     # fused aromatics whose fusion bond is written as an explicit closure (-2 on the opening label, the closing label, or both)
@@ -49,6 +51,8 @@ def make_judge():
         if m_out.faults:
             return "output unreadable"
         r = judge.compare_mols(m_in, m_out)
+        if r is None:
+            r = judge.kekule_problem(m_in, m_out)
         return None if r is None else r[1]
     return j
 
